@@ -571,6 +571,56 @@ def judge_cp(ctx, case, resp):
 
 # ---------------------------------------------------------------------------------------------------------------
 
+# ---------------------------------------------------------------------------------------------------------------
+# size: wide and deep trees (the operator pairs / random trees above are small)
+# ---------------------------------------------------------------------------------------------------------------
+
+WIDTHS = [2, 10, 50, 90, 96, 97, 98, 99, 100, 101, 120, 199, 200, 201, 300, 500, 1000]
+WIDTHS_QUICK = [2, 50, 98, 100, 128, 200, 256]
+
+
+def wide_cases(widths=WIDTHS):
+    """lists, argument lists, `in` lists, contexts, parameter lists, iteration clauses and unary-test lists with n members; left- and
+    right-nested chains and unary minus / parentheses n deep. Members alternate between a number and a small compound, so that the fully
+    parenthesised rendering differs from the minimal one."""
+    num = lambda i: ["num", str(i % 10), "", "plain"]
+    comp = lambda i: ["+", N("a"), num(i)]
+    for n in widths:
+        members = [num(i) if i % 2 else comp(i) for i in range(n)]
+        yield tree_case(["list", members]), "list", n
+        yield tree_case(["+", N("a"), ["list", members]]), "operand-list", n
+        yield tree_case(["call", N("f"), ["pos", members]]), "arguments", n
+        yield tree_case(["inlist", N("x"), members]), "in-list", n
+        yield tree_case(["exprlist", members], "unary"), "unary-tests", n
+        if n <= 300:
+            yield tree_case(["ctx", [["k%d" % i, "name", members[i]] for i in range(n)]]), "context-entries", n
+            yield tree_case(["fn", [["p%d" % i, None] for i in range(n)], N("a"), False]), "parameters", n
+            left = N("a")
+            for i in range(n):
+                left = ["+", left, num(i)]
+            yield tree_case(left), "left-chain", n
+            right = N("a")
+            for i in range(n):
+                right = ["**", num(i), right] if False else ["-", num(i), right]
+            yield tree_case(right), "right-nested", n
+            neg = N("a")
+            for i in range(n):
+                neg = ["neg", neg]
+            yield tree_case(neg), "unary-minus-depth", n
+            nest = N("a")
+            for i in range(n):
+                nest = ["list", [nest]]
+            yield tree_case(nest), "list-depth", n
+
+
+def enum_wide(ctx):
+    for case, shape, n in wide_cases(WIDTHS if ctx.thorough() else WIDTHS_QUICK):
+        case["v"] = [v for v in case["v"] if v[0] in ("full", "min")]
+        case["part"] = "wide"
+        case["wide"] = [shape, n]
+        yield case
+
+
 def setup(ctx):
     ctx.rule = ("cases: syntax trees over the full operator set (every ordered operator pair in every operand position, triples, random "
                 "trees of depth <= 6; leaves: bound single-word names, numbers and strings in all spellings) rendered to token lists "
@@ -587,6 +637,7 @@ def setup(ctx):
     ctx.p_num = ctx.register(Part("numbers", None, reqs_tree, judge_tree))
     ctx.p_cp = ctx.register(Part("codepoints", None, reqs_cp, judge_cp))
     ctx.p_layout = ctx.register(Part("layout", gen_layout, reqs_layout, judge_layout))
+    ctx.p_wide = ctx.register(Part("wide", None, reqs_tree, judge_tree))
     if CAL:
         ctx.max_violations = 10 ** 9
 
@@ -616,6 +667,12 @@ def run(ctx):
                   name="string literal code points x spellings (%s)" % ("all scalar values" if ctx.thorough() else "every 97th + boundaries"),
                   exhaustive=ctx.thorough())
     ctx.log("literals done")
+    if ctx.stop():
+        return
+    sys.setrecursionlimit(max(sys.getrecursionlimit(), 50000))
+    ctx.enumerate(ctx.p_wide, enum_wide(ctx), batch=10, name="wide and deep trees: %d sizes x 11 shapes x {full, minimal}" % len(WIDTHS if ctx.thorough() else WIDTHS_QUICK),
+                  exhaustive=True)
+    ctx.log("wide trees done")
     if ctx.stop():
         return
     ctx.forall(ctx.p_tree, ctx.scale(2500, 400000), batch=100)
